@@ -9,7 +9,7 @@ namespace Driver.C14
 model mode  (state = one assembler session of Model/Emitter.lean)
   new <x86|x64|a64> <ret|rec|thr|none>
   label | nlabel <hexname|-> <type> <parent> | bind <id> | align <mode> <n> | embed <hex> | embedarr <type> <hexitem|-> <count> <repeat>
-  elabel <id> <size> | edelta <id> <base> <size> | newsec <hexname> <flags> <align> | section <idx|foreign>
+  cpool <id> <pool alignment> <pool bytes hex|-> | elabel <id> <size> | edelta <id> <base> <size> | newsec <hexname> <flags> <align> | section <idx|foreign>
   emit <refs a,b|-> <opts hex> <extra 0|1> <comment 0|1> rej <err>
   emit <refs a,b|-> <opts hex> <extra 0|1> <comment 0|1> acc <hexbytes|-> <nrel> <nf label:type:vsize:voff:bits:shift:discard:off:rel:reloc|-> <new sections>
   -> <code> rep=<0|1> O <opts> <sig> <id> <cmt> sec=<sizes> lab=<n> bnd=<n> rel=<n> fix=<n> cur=<n> off=<n> bh=<fnv of the section bytes>
@@ -59,6 +59,7 @@ def parseOp (s : St) (ws : List String) : Option Op :=
     some (.embedArray (← t.toNat?) (blocks.flatten ++ List.replicate 64 0) c (← r.toNat?))
   | ["elabel", i, z] => do some (.embedLabel (← i.toNat?) (← z.toNat?))
   | ["edelta", i, b, z] => do some (.embedLabelDelta (← i.toNat?) (← b.toNat?) (← z.toNat?))
+  | ["cpool", i, a, d] => do some (.embedConstPool (← i.toNat?) (← a.toNat?) (← hexToBytes? d))
   | ["newsec", n, _, a] => do some (.newSection (← hexToBytes? n).length (← a.toNat?))
   | ["section", i] =>
     if i == "foreign" then some (.section none) else do
